@@ -340,6 +340,11 @@ def main():
                     if why:
                         bad_spec = True
                         sp = sp + "  [oracle: " + why + "]"
+                        if why.startswith("KNOWN:"):
+                            key = why[len("KNOWN:"):]
+                            if (pid, key) in known:
+                                seen_known.setdefault(key, (c, i, sp))
+                                continue
                 bad_model = i not in m.split(" || ")
                 if bad_spec:
                     key = cfg["finding_key"](c, i, sp)
